@@ -1,18 +1,25 @@
-import vlib, vtmf_common, tracecheck, shuffle_common
+import vlib, vtmf_common, tracecheck, shuffle_common, parts, rotation_common, groth_common, qrproof_common
 PID = "C05"
 EVS = "VMask,VPriv,VSec,UpdKey".split(",")
 def run(tier, seed):
     ck = vlib.Check(PID, tier, seed, "model_checking")
-    vtmf_common.run_mc(ck, ["MC_VTMF_sigma" if tier == "quick" else "MC_VTMF_sigma_full"], tier)
-    def interesting(e):
-        if e["e"] in EVS:
-            return "%s:%s:%s:%s:%s:%s" % (e["e"], e.get("mut"), e.get("pub"), e.get("mode"), e.get("res"), str(e.get("msg") or e.get("bits"))[:60])
-        return None
-    vtmf_common.record_and_validate(ck, PID, "c05", 300 if tier == "quick" else 5000, seed, interesting)
-    shuffle_common.run(ck, PID, tier, seed, lambda c: c["stmt"] == "true" and c["expect"] == "refuse")
+    def vtmf_part():
+        vtmf_common.run_mc(ck, ["MC_VTMF_sigma" if tier == "quick" else "MC_VTMF_sigma_full"], tier)
+        def interesting(e):
+            if e["e"] in EVS:
+                return "%s:%s:%s:%s:%s:%s" % (e["e"], e.get("mut"), e.get("pub"), e.get("mode"), e.get("res"), str(e.get("msg") or e.get("bits"))[:60])
+            return None
+        vtmf_common.record_and_validate(ck, PID, "c05", 300 if tier == "quick" else 5000, seed, interesting)
+        shuffle_common.run(ck, PID, tier, seed, lambda c: c["stmt"] == "true" and c["expect"] == "refuse")
+    # the algebra of the shuffle / rotation arguments and of the proofs of the quadratic-residue encoding, transcribed in
+    # Groth.tla, Rotation.tla, QRProof.tla: exhaustive small-group theorems + every line of recorded runs recomputed
+    parts.parallel([("vtmf", vtmf_part),
+                    ("rotation", lambda: rotation_common.run(ck, PID, tier, seed, PID)),
+                    ("groth", lambda: groth_common.run(ck, PID, tier, seed, PID)),
+                    ("qrproof", lambda: qrproof_common.run(ck, PID, tier, seed, PID))])
     ck.cov["rule"] = "MC_VTMF_sigma exhaustive in p=23,q=11; recorded random executions validated by VTMFTrace; a case is a distinct (execution, operation, mutation, verdict, transcript) tuple of the kinds " + ",".join(EVS)
     return ck.finish()
 def replay(path, seed):
     ck = vlib.Check(PID, "quick", seed, "model_checking")
-    tracecheck.validate(ck, PID, "replay", "VTMFTrace", "VTMFTrace.cfg", tracecheck.split_executions(path), classify=vtmf_common.classify, chunks=1)
+    parts.replay_dispatch(ck, PID, path, lambda: tracecheck.validate(ck, PID, "replay", "VTMFTrace", "VTMFTrace.cfg", tracecheck.split_executions(path), classify=vtmf_common.classify, chunks=1))
     return ck.finish()
